@@ -503,20 +503,35 @@ def judge_j(cx, cases, rows):
 
 
 def confirm_timeouts(cx):
-    """a time-out (or an answer beyond the limit) is a violation only if a second run on a small pool (4 workers) confirms it"""
+    """a time-out (or an answer beyond the limit) is judged by a second run on a small pool (4 workers) with a six times
+    larger limit, so that the verdict does not depend on the load of the machine: what the input EVENTUALLY does decides -
+    a crash is reported as that crash, an answer within the original limit was a flake, an answer within three times the
+    limit is noted as slow (CPU time on a shared machine varies by such a factor), anything slower or no answer at all is
+    a confirmed time-out"""
     if not cx.recheck:
         return
-    cases = [c for _, c in cx.recheck]
+    cases = []
+    for _, c in cx.recheck:
+        c = dict(c)
+        c["tmo"] = 6 * limit_of(c, cx.tier)
+        cases.append(c)
     rows, _ = run_cases(cx.sc, "recheck", cases, cx.tier, batch=1, workers=4)
-    flaky = 0
+    flaky = slow = 0
     for (source, case), r in zip(cx.recheck, rows):
-        if r["o"] in GOOD and not too_slow(case, r, cx.tier):
+        limit = limit_of(case, cx.tier)
+        if r["o"] in GOOD and (r.get("ms") or 0) <= limit:
             flaky += 1
             continue
-        kind = "timeout" if r["o"] in GOOD else None       # answered both times, but beyond the limit
+        if r["o"] in GOOD and (r.get("ms") or 0) <= 3 * limit:
+            slow += 1
+            cx.drift["answered within 3x the time limit on the second run (not judged)"] = cx.drift.get("answered within 3x the time limit on the second run (not judged)", 0) + 1
+            cx.drift.setdefault("example: slow", case.get("id") or expand(case)[:80])
+            continue
+        kind = "timeout" if r["o"] in GOOD else None       # answered, but far beyond the limit
         cx.pending.append(make_violation(source, case, r, kind=kind, extra={"confirmed_by_second_run": True}))
     cx.rep.add("timeouts_first_run", len(cases))
     cx.rep.add("timeouts_not_confirmed", flaky)
+    cx.rep.add("timeouts_slow_not_judged", slow)
 
 
 def report(cx):
